@@ -65,6 +65,12 @@ def Excl_shapeSFloor (shape : Shape) (sls : List (Option Sl)) : Bool :=
 def Excl_reshapeLongWindow (t : Dense) : Bool :=
   !t.view && (t.win.len : Int) != totalSize t.ap.shape
 
+/-- F97 (C13): a tensor that is not a view and has no pending transpose, but whose strides are not the default
+    strides of its shape and order flag (a clone of a slice of a lazily transposed tensor keeps the slice's permuted
+    strides and the parent's order flag): Reshape installs the default strides of the new shape and moves no data. -/
+def Excl_reshapeStrides (t : Dense) : Bool :=
+  !t.view && t.old.isNone && !isScalar t.ap.shape && t.ap.strides != Dense.defaultStrides t.ap.o.col t.ap.shape
+
 /-- F31 (C07/C11): scalar-on-the-left comparison with same-type output on an iterator path: the
     generated code walks the (contiguous) result buffer with the *operand's* iterator offsets
     (`<Cmp>SameIter(typ, dataA, dataReuse, ait, bit)`): panic or wrong cells. -/
